@@ -6,6 +6,8 @@
   per file plus one per in-memory store.  Property theorems only; helper lemmas live in `AeicProofs/Lemmas/Store*.lean`.
 -/
 import AeicProofs.Lemmas.StoreMain
+import AeicProofs.Lemmas.AddProg
+import AeicModel.Generated.AddProg
 
 namespace C07
 open Aeic.Store
@@ -143,5 +145,19 @@ example : run World.init
      .get 0, .len, .openRead 0, .iter, .get 3] =
     [.ok, .idx 0, .idx 1, .ok, .idx 2, .item ⟨0, 0, none, 0, true⟩, .len 3, .ok,
      .items [⟨0, 0, none, 0, true⟩, ⟨1, 0, none, 0, true⟩, ⟨2, 0, none, 0, true⟩], .err .indexError] := by decide
+
+/-! ### the index bookkeeping of `TrajectoryStore.add` as the source text has it (regenerated on every run) -/
+
+open Aeic.AddProg in
+/-- **every accepted `add` of the source advances the next index exactly once, unconditionally, right after the cache took the
+    trajectory** (and a refused one not at all: `C10.src_rejected_add_changes_nothing`) — so the indices handed out are
+    0, 1, 2, … in insertion order, whatever else the call does -/
+theorem src_add_advances_index_once :
+    (mutations Aeic.Gen.addProgram).count (.set "_next_index" false) = 1 ∧
+    (mutations Aeic.Gen.addProgram).take 2 = [.insert, .set "_next_index" false] ∧
+    ∀ fails insertRefused, (run fails insertRefused Aeic.Gen.addProgram).raised = false →
+      (run fails insertRefused Aeic.Gen.addProgram).done = mutations Aeic.Gen.addProgram := by
+  refine ⟨by decide, by decide, fun fails ir h => ?_⟩
+  simpa [Aeic.AddProg.run] using ok_done fails ir Aeic.Gen.addProgram [] h
 
 end C07
